@@ -69,6 +69,7 @@ type entry struct {
 	before, after string
 	known         bool // pushed by a checked edit (content recorded); false: left over from the setup history or tainted
 	kind          string
+	ops           []document.HistoryOperation // the real entry (captured when it reached the top of its stack)
 }
 
 // redoTop identifies the top entry of the real redo stack.
@@ -181,10 +182,97 @@ func eval(c Case) (out Outcome) {
 		return nil
 	}
 
+	track := prog.NewTreeAnchorTrack()
+	track.ObserveDoc(0, d)
 	for _, s := range c.Steps {
 		if d.UndoStackLenForTest() >= document.MaxUndoRedoStackDepth-1 {
 			out.Ev["stack_cap_reached"] = 1
 			break
+		}
+		if s.Op == "gc" {
+			// The replica synchronises (nobody else edits: it receives no
+			// remote change) and collects its own garbage. Undo/redo then has
+			// to RE-CREATE what it revives. Which entries stay inside the
+			// content oracle is decided now, while the tombstones still exist:
+			// only the top entry of each stack, only when it consists of
+			// text/tree edits and counter increases, and only when the anchor
+			// upstream's re-creation ladder will use is live and adjacent
+			// (anything else is the trigger of known finding F33). All other
+			// entries become opaque to the model (never popped).
+			if e.peerOff || e.noPeerGC || d.GarbageLen() == 0 {
+				out.Ev["gc_step_noop"]++
+				continue
+			}
+			// decide, per stack from the top down, which entries stay in the
+			// content oracle: an entry is kept when its own revivals have live
+			// adjacent anchors, it holds nothing but text/tree edits and counter
+			// increases, and every entry above it revives nothing (undoing those
+			// first only tombstones nodes, which leaves the neighbours of the
+			// deeper tombstones in place)
+			decide := func(st []entry) (kept int) {
+				benignAbove := true
+				for i := len(st) - 1; i >= 0; i-- {
+					if !st[i].known {
+						break
+					}
+					ok, revives, other := prog.ReviveAnchorsAdjacent(d, st[i].ops, track, 0)
+					if !(ok && !other && benignAbove && len(st[i].ops) > 0) {
+						st[i].known = false
+						break
+					}
+					kept++
+					if revives {
+						benignAbove = false
+					}
+				}
+				return kept
+			}
+			// (decided before the purge, applied below)
+			undoBefore := append([]entry{}, undo...)
+			redoBefore := append([]entry{}, redo...)
+			keptU, keptR := decide(undoBefore), decide(redoBefore)
+			if f := e.forward(c.PeerGC); f != nil {
+				return fail(f)
+			}
+			var err error
+			func() {
+				defer func() {
+					if p := recover(); p != nil {
+						err = fmt.Errorf("PANIC: %v\n%s", p, debug.Stack())
+					}
+				}()
+				pack := d.CreateChangePack()
+				e.rl.reported[e.peer.ActorID().String()] = e.peer.VersionVector().DeepCopy()
+				e.rl.reported[d.ActorID().String()] = pack.VersionVector.DeepCopy()
+				err = e.rl.pull(d, pack.Checkpoint.ClientSeq, true)
+				e.sent = 0
+			}()
+			if err != nil {
+				return fail(kit.Failf("GC-SYNC-FAILED", "the replica's own synchronisation (no remote changes) failed: %v", err))
+			}
+			logf("gc -> garbage %d (undo entries kept in the model: %d of %d, redo entries: %d of %d)", d.GarbageLen(), keptU, len(undo), keptR, len(redo))
+			if f := cloneCheck("gc"); f != nil {
+				return fail(f)
+			}
+			out.Ev["gc_step_purged"]++
+			for i := range undo {
+				if i < len(undo)-keptU {
+					undo[i].known = false
+				}
+			}
+			for i := range redo {
+				if i < len(redo)-keptR {
+					redo[i].known = false
+				}
+			}
+			keepU := keptU > 0
+			if keptU >= 2 {
+				out.Ev["gc_kept_deeper_undo_entry"]++
+			}
+			if keepU && len(undo) > 0 && undo[len(undo)-1].known {
+				out.Ev["gc_then_undo_candidate"]++
+			}
+			continue
 		}
 		s, why := guard(d, s)
 		if why != "" {
@@ -267,6 +355,7 @@ func eval(c Case) (out Outcome) {
 					// styles/moves is approximate, the model follows the
 					// real stack
 					if content || r1 != r0 {
+						en.ops = d.RedoStackTopForTest()
 						redo = append(redo, en)
 					} else {
 						out.Ev["undo_left_no_redo_entry"]++
@@ -300,6 +389,7 @@ func eval(c Case) (out Outcome) {
 						return fail(kit.Failf("REDO-CONTENT", "after Redo() the content is not what it was after the redone %s edit:\n want %s\n got  %s", en.kind, en.after, after))
 					}
 					if content || l1 == l0+1 {
+						en.ops = d.UndoStackTopForTest()
 						undo = append(undo, en)
 					} else {
 						out.Ev["redo_left_no_undo_entry"]++
@@ -373,7 +463,7 @@ func eval(c Case) (out Outcome) {
 				out.Ev["noop_edit_kept_redo"]++
 			}
 			if l1 > l0 {
-				undo = append(undo, entry{before: before, after: after, known: true, kind: k})
+				undo = append(undo, entry{before: before, after: after, known: true, kind: k, ops: d.UndoStackTopForTest()})
 				if !changed {
 					out.Ev["entry_without_content_change"]++
 				}
@@ -387,6 +477,7 @@ func eval(c Case) (out Outcome) {
 		if d.GarbageLen() > 0 {
 			garbage = true
 		}
+		track.ObserveDoc(0, d)
 		if f := e.forward(c.PeerGC); f != nil {
 			return fail(f)
 		}
@@ -524,6 +615,9 @@ func genCase(stratum string) *rapid.Generator[Case] {
 				}
 			}
 		}
+		// a third of the cases let the replica collect its own garbage
+		// between edits and undos (step "gc")
+		gcSteps := rapid.IntRange(0, 2).Draw(t, "gcsteps") == 0
 		// blocks: E(dits) U(ndos) R(edos); the successor kind is biased so
 		// that E->U->R chains (nested undos followed by redos) are frequent
 		nb := rapid.IntRange(2, 8).Draw(t, "blocks")
@@ -554,6 +648,9 @@ func genCase(stratum string) *rapid.Generator[Case] {
 			case 'E':
 				n := rapid.IntRange(1, 6).Draw(t, "n")
 				c.Steps = append(c.Steps, rapid.SliceOfN(genStep(pool, 0), n, n).Draw(t, "edits")...)
+				if gcSteps && rapid.IntRange(0, 2).Draw(t, "gc") == 0 {
+					c.Steps = append(c.Steps, prog.Step{Op: "gc"})
+				}
 			case 'U':
 				for i, n := 0, rapid.IntRange(1, 6).Draw(t, "n"); i < n; i++ {
 					c.Steps = append(c.Steps, prog.Step{Op: "undo"})
